@@ -45,7 +45,11 @@ def posc_info():
     db = UnitDatabase.GetSingleton()
     info = {}
     for qt in db.GetQuantityTypes():
-        info[qt] = {"units": list(db.GetUnits(qt)), "cats": []}
+        info[qt] = {"units": list(db.GetUnits(qt)), "cats": [], "dc_units": []}
+        for un in info[qt]["units"]:
+            dc = db.GetDefaultCategory(un)
+            if dc and dc != qt:
+                info[qt]["dc_units"].append(un)  # units that name their own default category
     for c in db.IterCategories():
         info[db.GetCategoryQuantityType(c)]["cats"].append(c)
     _INFO["posc"] = info
@@ -93,6 +97,8 @@ def draw_basis(rng, info, n_types=(3, 6), n_units=(2, 4), n_cats=(1, 3), exotic=
         units = info[q]["units"]
         nu = min(len(units), rng.randint(*n_units))
         us = [units[0]] if rng.random() < 0.7 else []
+        if info[q].get("dc_units") and rng.random() < 0.5:
+            us.append(rng.choice(info[q]["dc_units"]))
         while len(us) < nu:
             u = rng.choice(units)
             if u not in us:
